@@ -17,7 +17,8 @@ EXHAUSTIVE = True
 RULE = ("every tree of U(n) (all rooted shapes on n labelled leaves, n up to the tier bound) x rooting {rooted, "
         "unrooted, undefined} x child-order variants x unifurcation insertions x unrooted re-drawings x six "
         "namespace configurations x encoder flag pairs; a case = one (drawing, rooting, namespace config, flags) "
-        "encoding, one reconstruction order, or one predicate argument pair; non-trivial = tree has >= 3 leaves")
+        "encoding, one reconstruction order, or one predicate argument pair; non-trivial = tree has >= 3 leaves; plus a stated "
+        "finite set of large representatives (ladders, stars, balanced trees, a broom with 16..130 leaves) for size-triggered defects")
 ASSUMPTIONS = [
     "reference bit index of a taxon = order of accession recorded by the harness (mc/build.make_namespace)",
     "reference topology = clade sets computed from Node._child_nodes by mc/ref.py",
@@ -29,9 +30,11 @@ ASSUMPTIONS = [
 def bounds(tier):
     if tier == "quick":
         return {"max_leaves": 5, "all_orders_up_to": 4, "double_unifurcations_up_to": 4,
-                "ns_configs": build.NS_CONFIGS, "full_permutation_limit": 6}
+                "ns_configs": build.NS_CONFIGS, "full_permutation_limit": 6,
+                "large_representatives": [(k, n) for k, n, _ in big_shapes()]}
     return {"max_leaves": 6, "all_orders_up_to": 4, "double_unifurcations_up_to": 4,
-            "ns_configs": build.NS_CONFIGS, "full_permutation_limit": 7}
+            "ns_configs": build.NS_CONFIGS, "full_permutation_limit": 7,
+            "large_representatives": [(k, n) for k, n, _ in big_shapes()]}
 
 
 def chunks(tier):
@@ -45,6 +48,40 @@ def chunks(tier):
                 out.append({"kind": "enc", "n": n, "lo": lo, "hi": min(ns, lo + step), "rooted": rooted, "tier": tier})
         for rooted in (True, False):
             out.append({"kind": "pred", "n": n, "rooted": rooted, "tier": tier})
+    for i in range(len(big_shapes())):
+        out.append({"kind": "big", "index": i, "tier": tier})
+    return out
+
+
+def labels_for(n):
+    if n <= len(U.LABELS):
+        return U.LABELS[:n]
+    return ["t%03d" % i for i in range(n)]
+
+
+def big_shapes():
+    """A stated finite set of larger trees (size-triggered defects - word sizes, block sizes,
+    recursion limits - are invisible in U(n<=6)): ladders, balanced trees, stars, a broom."""
+    out = []
+
+    def ladder(k, left=True):
+        s = 0
+        for i in range(1, k):
+            s = (s, i) if left else (i, s)
+        return s
+
+    def balanced(lo, hi):
+        if hi - lo == 1:
+            return lo
+        mid = (lo + hi) // 2
+        return (balanced(lo, mid), balanced(mid, hi))
+    for k in (17, 31, 32, 33, 40, 63, 64, 65, 70, 130):
+        out.append(("ladder", k, ladder(k)))
+        out.append(("star", k, tuple(range(k))))
+    for k in (16, 32, 64, 128):
+        out.append(("balanced", k, balanced(0, k)))
+    out.append(("broom", 60, (ladder(20), tuple(range(20, 60)))))
+    out.append(("right-ladder", 66, ladder(66, left=False)))
     return out
 
 
@@ -101,9 +138,9 @@ def check_encoding(case, ctx, collect=None):
     rooted = case["rooted"]
     cfg = case["ns"]
     su, cb = case["flags"]
-    labels = U.LABELS[:case["n"]]
+    labels = labels_for(case["n"])
     ns, bit = build.make_namespace(labels, cfg)
-    sn = ref.mk(shape, lens=1)
+    sn = ref.mk(shape, lens=1, labels=labels)
     tree = build.build_tree((rooted, sn), ns)
     is_rooted = bool(rooted)
     ref_key = ref.topology_key(sn, is_rooted)
@@ -191,16 +228,35 @@ def check_reconstruct(case, ctx):
     rooted = case["rooted"]
     is_rooted = bool(rooted)
     cfg = case["ns"]
-    labels = U.LABELS[:case["n"]]
+    labels = labels_for(case["n"])
     limit = case.get("limit", 6)
     ns, bit = build.make_namespace(labels, cfg)
-    sn = ref.mk(shape, lens=1)
+    sn = ref.mk(shape, lens=1, labels=labels)
     tree = build.build_tree((rooted, sn), ns)
     enc = list(tree.encode_bipartitions())
     ref_key = ref.topology_key(sn, is_rooted)
     nontriv = [i for i, b in enumerate(enc) if not _trivial_mask(b._leafset_bitmask, b._tree_leafset_bitmask)]
     triv = [i for i in range(len(enc)) if i not in nontriv]
-    perms = [tuple(case["perm"])] if case.get("perm") is not None else placements(nontriv, triv, limit)
+    if case.get("perm") is not None:
+        perms = [tuple(case["perm"])]
+    elif case.get("perm_kinds"):
+        idx = list(range(len(enc)))
+        perms = []
+        for kind in case["perm_kinds"]:
+            if kind == "identity":
+                perms.append(tuple(idx))
+            elif kind == "reversed":
+                perms.append(tuple(reversed(idx)))
+            elif kind == "rotated":
+                perms.append(tuple(idx[len(idx) // 2:] + idx[:len(idx) // 2]))
+            elif kind == "interleaved":
+                perms.append(tuple(idx[0::2] + idx[1::2]))
+            elif kind == "by-size-desc":
+                perms.append(tuple(sorted(idx, key=lambda i: -bin(enc[i]._leafset_bitmask).count("1"))))
+            elif kind == "by-size-asc":
+                perms.append(tuple(sorted(idx, key=lambda i: bin(enc[i]._leafset_bitmask).count("1"))))
+    else:
+        perms = placements(nontriv, triv, limit)
     for perm in perms:
         for via in ("bipartitions", "bitmasks"):
             c = dict(case, perm=list(perm), via=via)
@@ -242,9 +298,40 @@ def _trivial_mask(m, total):
 SPANNING = ("exact", "reversed", "removed_low")
 
 
+BIG_PERMS = ["identity", "reversed", "rotated", "interleaved", "by-size-desc", "by-size-asc"]
+
+
+def run_big(chunk, ctx):
+    kind, n, shape = big_shapes()[chunk["index"]]
+    collect = []
+    for rooted in (True, False):
+        drawings = [("base", shape), ("order", U.reverse_all(shape))]
+        if not rooted:
+            rd = U.redrawings(shape)
+            picks = sorted(set([1, 2, len(rd) // 2, len(rd) - 2, len(rd) - 1]) & set(range(len(rd))))
+            drawings += [("redraw", rd[i]) for i in picks if rd[i] != shape]
+        for tag, d in drawings:
+            for cfg in ("exact", "removed_low", "reversed", "extra_low"):
+                case = {"kind": "enc", "n": n, "shape": d, "rooted": rooted, "ns": cfg, "flags": [True, True], "tag": "big-" + tag}
+                ctx.case(("enc-big", kind, n, tag, d if n <= 40 else hash(d), rooted, cfg))
+                ctx.count("encodings")
+                ctx.count("big_tree_encodings")
+                check_encoding(case, ctx, collect)
+        for cfg in ("exact", "removed_low"):
+            check_reconstruct({"kind": "rec", "n": n, "shape": shape, "rooted": rooted, "ns": cfg, "perm": None,
+                               "perm_kinds": BIG_PERMS}, ctx)
+    ctx.sample({"large_representative": kind, "leaves": n}, 1)
+    agg = {}
+    for cls, lk, rk, case in collect:
+        agg.setdefault(cls, {}).setdefault(lk, {}).setdefault(rk, case)
+    return agg
+
+
 def run_chunk(chunk, ctx):
     if chunk["kind"] == "pred":
         return run_pred(chunk, ctx)
+    if chunk["kind"] == "big":
+        return run_big(chunk, ctx)
     n, rooted, tier = chunk["n"], chunk["rooted"], chunk["tier"]
     b = bounds(tier)
     shapes = U.shapes(n)
@@ -342,7 +429,7 @@ def _labelset(mask, bit):
 
 def check_predicates(case, ctx):
     n, rooted, cfg = case["n"], case["rooted"], case["ns"]
-    labels = U.LABELS[:n]
+    labels = labels_for(n)
     ns, bit = build.make_namespace(labels, cfg)
     allc = frozenset(labels)
     bips = {}
